@@ -735,8 +735,8 @@ pub fn property() -> Property {
         ],
         both_profiles: false,
         subs: vec![
-            sub("graph/history", 200_000, 4_000_000, strategy, run),
-            sub("graph/u8-capacity", 6_000, 150_000, capacity_strategy, run),
+            sub("graph/history", 400_000, 4_000_000, strategy, run),
+            sub("graph/u8-capacity", 12_000, 300_000, capacity_strategy, run),
         ],
     }
 }
